@@ -625,6 +625,11 @@ def variant_facts(body, flow):
             if s["k"] == "assign":
                 facts = kill(facts, s["place"]["l"]) if not s["place"]["p"] else facts
                 v_ = _assigned_variant(s)
+                src_ = _copied_local(s)
+                if v_ is None and src_ is not None:
+                    for (p_, vv_) in facts:
+                        if p_ == "_%d" % src_:
+                            v_ = vv_
                 if v_ is not None:
                     facts = frozenset(set(facts) | {("_%d" % s["place"]["l"], v_)})
         t = body.term(bb)
@@ -668,6 +673,16 @@ def _assigned_variant(stmt):
     rv = stmt["rv"]
     if rv["k"] == "aggregate" and rv.get("agg") == "adt" and rv.get("variant") and rv.get("adt") and rv["variant"] != rv["adt"].split("::")[-1]:
         return rv["variant"]
+    return None
+
+
+def _copied_local(stmt):
+    """`_x = copy/move _y` (both whole locals): returns y, else None."""
+    if stmt["k"] != "assign" or stmt["place"]["p"]:
+        return None
+    rv = stmt["rv"]
+    if rv["k"] == "use" and rv["op"]["k"] in ("copy", "move") and not rv["op"]["place"]["p"]:
+        return rv["op"]["place"]["l"]
     return None
 
 
@@ -823,8 +838,10 @@ def flag_search(body, flow, start, stop=(), init=None, max_states=200000):
             if s["k"] == "assign" and not s["place"]["p"]:
                 if s["place"]["l"] in flags:
                     st[s["place"]["l"]] = frozenset((int(s["rv"]["op"]["bits"]) & 1,))
+                src_ = _copied_local(s)
+                carried = vk.get("_%d" % src_) if src_ is not None else None
                 vk = kill(vk, s["place"]["l"])
-                v_ = _assigned_variant(s)
+                v_ = _assigned_variant(s) or carried
                 if v_ is not None:
                     vk["_%d" % s["place"]["l"]] = v_
         t = body.term(bb)
@@ -917,8 +934,10 @@ def sensitive_paths(body, flow, loop_visits=2, max_paths=200000, start=0):
                 elif l in derived:
                     src = s["rv"]["op"]["place"]["l"]
                     st[l] = st.get(src, BOTH)
+                src_ = _copied_local(s)
+                carried = vk.get("_%d" % src_) if src_ is not None else None
                 vk = kill(vk, l)
-                v_ = _assigned_variant(s)
+                v_ = _assigned_variant(s) or carried
                 if v_ is not None:
                     vk["_%d" % l] = v_
         t = body.term(bb)
